@@ -20,8 +20,10 @@ package contractcourt
 //      (CrashBefore(k) / CrashAfter(k), k in 1..W; optionally a second crash
 //      after the restart): at the crash the database is fenced, the old
 //      arbitrator is stopped, the SimKV is reopened and a new arbitrator is
-//      built from disk the way ChainArbitrator.Start does it; the chain script
-//      continues unchanged;
+//      built from disk the way ChainArbitrator.Start does it (the channel
+//      database is a real channeldb on the same SimKV file, ResolveContract is
+//      the real one: closesim_c13_chandb.go); the chain script continues
+//      unchanged;
 //   4. the comparison of every such execution with the reference
 //      (closesim_c13_oracle.go).
 //
@@ -197,6 +199,7 @@ type zzC13Exec struct {
 
 	w     *zzWorld
 	chain *zzC13Chain
+	cdb   *zzC13ChanDB // real channel database + ChainArbitrator.ResolveContract
 
 	crashes []zzC13Crash // crash i is armed in epoch i+1
 	fired   []string     // descriptions of the crashes that fired
@@ -367,8 +370,11 @@ func (ex *zzC13Exec) execute() {
 func (ex *zzC13Exec) run() {
 	r, sc := ex.r, ex.sc
 	m := zzC13CloneModel(sc.model)
+	fromTemplate := zzC13PlaceTemplate(ex)
 	w := zzNewWorld(r, ex.t, m, sc.cfg.world)
 	ex.w = w
+	ex.cdb = zzC13OpenChanDB(ex, w, fromTemplate)
+	w.hooks = ex.cdb
 	w.trace = ex.ref == nil
 	ex.chain = zzC13NewChain(ex)
 	ex.resolvedSeen = map[int]int{}
@@ -738,9 +744,10 @@ func (ex *zzC13Exec) handleLearned() bool {
 	return ex.chain.pushPreimage(no)
 }
 
-// handleResolved plays ChainArbitrator.resolveContracts/ResolveContract for a
-// NotifyChannelResolved signal: mark the channel fully closed, stop the
-// arbitrator, wipe its log.
+// handleResolved plays ChainArbitrator.resolveContracts for a
+// NotifyChannelResolved signal: it calls the real ChainArbitrator.ResolveContract
+// (mark the channel fully closed in the channel database, stop the arbitrator,
+// wipe its log — in whatever order and with whatever writes lnd does it).
 func (ex *zzC13Exec) handleResolved() bool {
 	w := ex.w
 	inc := w.inc
@@ -754,24 +761,48 @@ func (ex *zzC13Exec) handleResolved() bool {
 	ex.markAttempts++
 	// ORACLE (statement: "the channel is marked fully resolved only after
 	// all contracts are resolved"): the unresolved-contracts bucket must be
-	// empty when the arbitrator reports the channel resolved.
+	// empty when the arbitrator reports the channel resolved, i.e. at the
+	// moment ResolveContract is entered.
 	if keys := ex.contractKeys(); len(keys) > 0 && ex.earlyMark == "" {
 		ex.earlyMark = fmt.Sprintf("%d unresolved contract(s) %v still in the log (arbitrator state %v)", len(keys), keys, inc.arb.state)
 	}
-	w.logf("chain arbitrator: marking channel fully closed")
-	if err := w.dbPut(zzChanBucket, []byte("fully"), []byte{1}); err != nil {
-		if w.kv.Fenced() {
-			return true
+	w.logf("chain arbitrator: ResolveContract")
+	res := ex.cdb.resolveContract(inc)
+	var err error
+	select {
+	case err = <-res:
+	default:
+		// ResolveContract is stuck in ChannelArbitrator.Stop: release
+		// whatever the stubs still hold and look again
+		ex.r.Count("stop_blocked")
+		inc.dead = true
+		inc.sched.kill()
+		w.settle()
+		select {
+		case err = <-res:
+		default:
+			w.logf("chain arbitrator: ResolveContract does not return")
 		}
-		ex.r.Harness("mark fully closed: %v", err)
 	}
-	ex.terminalAt = w.stim
-	w.kill()
-	if err := inc.log.WipeHistory(); err != nil {
-		if w.kv.Fenced() {
-			return true
+	switch {
+	case w.kv.Fenced():
+		// the node died inside ResolveContract; the restart reads what
+		// reached the disk
+		return true
+	case err != nil:
+		w.logf("chain arbitrator: ResolveContract failed: %v", err)
+		if ex.ref == nil {
+			// uninterrupted run, no fault injected: the simulated
+			// channel database does not fit the arbitrator
+			ex.r.Harness("ResolveContract in the uninterrupted run: %v", err)
 		}
-		ex.r.Harness("wipe history: %v", err)
+		ex.r.Count("probe_resolve_contract_error_after_restart")
+		return true
+	}
+	// lnd is done with the channel; the process lives on without it
+	w.kill()
+	if _, _, _, fully := w.closedInfo(); fully {
+		ex.terminalAt = w.stim
 	}
 	return true
 }
@@ -871,9 +902,10 @@ func (ex *zzC13Exec) restart() {
 		// dispatches the close event again
 		w.logf("chain watcher: re-dispatching %s close", w.closeDelivered)
 		w.deliverClose(w.closeDelivered)
-	case w.dbGet(zzChanBucket, []byte("bcast")) != nil && w.frozen:
-		// ChainArbitrator.republishClosingTxs
-		ex.chain.onPublish(w.commits[zzSetL].tx)
+	case ex.cdb.broadcastedCommitment() != nil && w.frozen:
+		// ChainArbitrator.republishClosingTxs: the stored closing tx of a
+		// channel with status ChanStatusCommitBroadcasted
+		ex.chain.onPublish(ex.cdb.broadcastedCommitment())
 	}
 	if w.kv.Fenced() {
 		return
@@ -940,18 +972,26 @@ func zzC13WriteLabel() string {
 					method = short[strings.Index(short, ").")+2:]
 				}
 			case strings.Contains(short, "zzWorld).dbPut"):
+				// resolver reports written outside a log transaction
 				if method == "" {
-					method = "chandb"
+					method = "PutResolverReport"
 				}
 			case strings.Contains(short, "zz"):
-				if strings.Contains(short, "handleResolved") && caller == "" {
-					caller = "ChainArbitrator.ResolveContract"
-				}
+				// simulator frames (stub closures, drivers)
 			case strings.Contains(short, ".func"):
 				// closures (Checkpoint, config callbacks): keep looking
 			default:
 				if caller == "" {
 					caller = strings.NewReplacer("(*", "", ")", "").Replace(short)
+				}
+			}
+		}
+		// the real channel database: the outermost method of the channel
+		// state store / the channel record that led to this write
+		if caller == "" {
+			for _, recv := range []string{"channeldb.(*ChannelStateDB).", "chanstate.(*OpenChannel)."} {
+				if i := strings.LastIndex(name, recv); i >= 0 {
+					method = name[i+len(recv):]
 				}
 			}
 		}
